@@ -13,15 +13,15 @@ Ltac Zify.zify_post_hook ::= Z.to_euclidean_division_equations.
 
 Lemma gen_serialize_eq p : gen_serialize p = frame p.
 Proof.
-  unfold gen_serialize, frame, nlen. py_unfold.
-  rewrite ?py_land_255, ?py_shiftr_8. cbn [app].
+  unfold gen_serialize, frame, nlen. py_unfold. cbn [py_pack_le].
+  rewrite ?py_land_255, ?py_shiftr_8, ?py_land_65535. cbn [app].
   repeat (f_equal; try lia).
 Qed.
 
 (** every header element is a byte, whatever the payload length: [bytes(header)] never raises *)
 Lemma gen_serialize_pre_ok p : gen_serialize_pre p.
 Proof.
-  unfold gen_serialize_pre, all_bytes. py_unfold. rewrite ?py_land_255.
+  unfold gen_serialize_pre, all_bytes. py_unfold. rewrite ?py_land_255, ?py_land_65535.
   py_pre_split; repeat constructor; lia.
 Qed.
 
